@@ -80,6 +80,10 @@ def make(cls, rnd, variant=None):
         r = GR.gen_metrics(rnd, force=variant)
         if r is None:
             return None
+        if rnd.random() < 0.08:
+            # a Windows-style trace prefix: backslashes reach string literals of the program
+            r.extra = r.extra.replace("prefix: tmp/", "prefix: out\\new_")
+            r.tags = list(r.tags) + ["m-prefix-with-backslash"]
         return r, "metrics", getattr(r, "_extents", None)
     raise ValueError(cls)
 
